@@ -65,6 +65,7 @@ def engine_classify(engine, txn, rows):
         'winner_idx': next((i for i, x in enumerate(engine.rules) if x is r.matched_rule), None),
         'raw': r,
         'description': t.get('description'),
+        'field': None if t.get('field') is None else dict(t['field']),
     }
 
 
